@@ -106,16 +106,30 @@ def run_checks(seed):
         sh("git -C /repo checkout -q -- . && git -C /repo clean -fdq pkg")
         return {"error": {"exit": 2, "violations": [], "checker_failures": ["patch does not apply to /repo HEAD: " + out[-300:]]}}
     try:
-        procs = []
-        for i in range(1, 21):
-            p = "C%02d" % i
-            procs.append((p, subprocess.Popen([os.path.join(VERIF, "bin/wzcheck"), "-prop", p, "-no-evidence"], env=ENV, stdout=subprocess.PIPE, stderr=subprocess.STDOUT, text=True)))
-        for p, pr in procs:
-            out = pr.communicate()[0]
-            keys = re.findall(r"rule=\S+ obligation=(.*) site=(\S+)", out)
-            fails = [l for l in out.splitlines() if l.startswith("CHECKER-FAILURE") or l.startswith("UNDECIDED")]
-            if keys or fails or pr.returncode != 0:
-                fired[p] = {"exit": pr.returncode, "violations": [k + " @" + s for k, s in keys], "checker_failures": fails[:5]}
+        # one process, program loaded once, all 20 properties (evaluation helper mode of wzcheck)
+        pr = subprocess.run([os.path.join(VERIF, "bin/wzcheck"), "-prop", "all"], env=ENV, capture_output=True, text=True)
+        cur = None
+        per = {}
+        for l in (pr.stdout + pr.stderr).splitlines():
+            m = re.match(r"VIOLATION property=(C\d\d)", l)
+            if m:
+                cur = m.group(1)
+                continue
+            m = re.match(r"\s+rule=\S+ obligation=(.*) site=(\S+)", l)
+            if m and cur:
+                per.setdefault(cur, {"violations": [], "checker_failures": []})["violations"].append(m.group(1) + " @" + m.group(2))
+                continue
+            m = re.match(r"(?:CHECKER-FAILURE|UNDECIDED) property=(C\d\d|all)", l)
+            if m:
+                per.setdefault(m.group(1), {"violations": [], "checker_failures": []})["checker_failures"].append(l[:300])
+                continue
+            m = re.match(r"RESULT property=(C\d\d) exit=(\d+)", l)
+            if m and m.group(2) != "0":
+                per.setdefault(m.group(1), {"violations": [], "checker_failures": []})["exit"] = int(m.group(2))
+        for p, v in per.items():
+            v.setdefault("exit", 2 if p == "all" else 0)
+            v["checker_failures"] = v["checker_failures"][:5]
+            fired[p] = v
     finally:
         sh("git -C /repo checkout -q -- . && git -C /repo clean -fdq pkg")
     return fired
